@@ -11,11 +11,12 @@ trap "git -C /repo worktree remove --force $WT 2>/dev/null; rm -rf $WT" EXIT
 res=""
 (cd $WT && (git apply "$D/patch.diff" || git apply -3 "$D/patch.diff") && go build ./... && go test -vet=off -count=1 ./... >/tmp/ev_suite.$$ 2>&1); rcs=$?
 (cd $WT && git checkout -q -- . )
+pkgdir(){ pkg=$(grep -m1 '^package ' "$1" | awk '{print $2}' | sed 's/_test$//'); case "$pkg" in gpkg) echo processing/gpkg;; main) echo .;; *) echo $pkg;; esac; }
+for f in "$D"/*_test.go; do [ -f "$f" ] && cp "$f" "$WT/$(pkgdir "$f")/"; done     # helpers shared by several demos come along
 for f in "$D"/*_test.go; do
   [ -f "$f" ] || continue
-  pkg=$(grep -m1 '^package ' "$f" | awk '{print $2}' | sed 's/_test$//')
-  case "$pkg" in gpkg) dir=processing/gpkg;; main) dir=.;; *) dir=$pkg;; esac
-  cp "$f" "$WT/$dir/"
+  grep -qE '^func Test' "$f" || continue
+  dir=$(pkgdir "$f")
   tags=""; grep -q 'go:build verif' "$f" && tags="-tags verif"
   name=$(basename "$f")
   funcs=$(grep -oE '^func (Test[A-Za-z0-9_]+)' "$f" | awk '{print $2}' | paste -sd'|')
